@@ -467,7 +467,7 @@ def run(ctx, out):
     common.use_repo()
     thorough = ctx.tier == 'thorough'
     t0 = time.time()
-    budget = 480 if thorough else 34
+    budget = 480 if thorough else 26
     model = common.Model()
     mm = corr_mm()
     built = G.Built(mm)
